@@ -234,6 +234,7 @@ package core
 
 //@ func (*Context).SubContext
 //@   ensures[C19.subcontext_keeps_keys] result != nil && result.ReadKey == old(ctx.ReadKey) && result.WriteKey == old(ctx.WriteKey)
+//@   ensures[C11.subcontext_is_fresh] fresh(result)
 
 // Every mutation of a state reached from a Location requires the write permission; searches and rule
 // lookups require the read permission.
